@@ -329,6 +329,7 @@ type logEntry struct {
 type State struct {
 	u      *Universe
 	logs   map[*AObj][]logEntry // per modelled bytes.Buffer: what was written, in order (nil entry list = unknown)
+	written map[*AObj]bool      // objects some element/field of which has been written since allocation
 	itv    map[atomID]Itv
 	nils   map[symID]nilness
 	facts  map[string]*Lin
@@ -338,7 +339,7 @@ type State struct {
 }
 
 func newState(u *Universe) *State {
-	return &State{u: u, logs: map[*AObj][]logEntry{}, itv: map[atomID]Itv{}, nils: map[symID]nilness{}, facts: map[string]*Lin{}, mem: map[*AObj]map[string]AVal{}, guards: map[symID]*Guard{}}
+	return &State{u: u, written: map[*AObj]bool{}, logs: map[*AObj][]logEntry{}, itv: map[atomID]Itv{}, nils: map[symID]nilness{}, facts: map[string]*Lin{}, mem: map[*AObj]map[string]AVal{}, guards: map[symID]*Guard{}}
 }
 
 func (s *State) clone() *State {
@@ -365,6 +366,9 @@ func (s *State) clone() *State {
 	}
 	for k, v := range s.logs {
 		n.logs[k] = v // entries are append-only copies (see appendLog)
+	}
+	for k := range s.written {
+		n.written[k] = true
 	}
 	return n
 }
@@ -616,6 +620,12 @@ func joinStates(a, b *State) *State {
 		if lb, ok := b.logs[o]; ok && sameLog(la, lb) {
 			n.logs[o] = la
 		}
+	}
+	for o := range a.written {
+		n.written[o] = true
+	}
+	for o := range b.written {
+		n.written[o] = true
 	}
 	return n
 }
